@@ -276,14 +276,14 @@ def obligations(tier, seed):
         b = {"value_range": [lo, hi]}
         obs.append(Obligation(f"int-roundtrip[{name}]", h_int_roundtrip(lo, hi),
                               "decode(encode(v)) == v and decoding consumes exactly the encoding",
-                              b, enc_int, ["Stream: list-backed io.BytesIO stand-in (read/write/peek)"], opts=dict(vc_timeout=45.0)))
+                              b, enc_int, ["Stream: list-backed io.BytesIO stand-in (read/write/peek)"], opts=dict(vc_timeout=45.0, per_path_timeout=400.0, total_timeout=900.0)))
         obs.append(Obligation(f"int-truncation[{name}]", h_int_truncation(lo, hi),
                               "every strict prefix of an encoded int is refused with SerializationError",
-                              dict(b, cut="0..len-1"), enc_int, ["Stream: list-backed io.BytesIO stand-in (read/write/peek)"], opts=dict(vc_timeout=45.0)))
+                              dict(b, cut="0..len-1"), enc_int, ["Stream: list-backed io.BytesIO stand-in (read/write/peek)"], opts=dict(vc_timeout=45.0, per_path_timeout=400.0, total_timeout=900.0)))
         obs.append(Obligation(f"int-corruption[{name}]", h_int_corruption(lo, hi),
                               "one arbitrary corrupted byte: decoding yields an int or SerializationError, nothing else",
                               dict(b, position="any", new_byte="0..255"), enc_int,
-                              ["Stream: list-backed io.BytesIO stand-in (read/write/peek)"], opts=dict(vc_timeout=45.0)))
+                              ["Stream: list-backed io.BytesIO stand-in (read/write/peek)"], opts=dict(vc_timeout=45.0, per_path_timeout=400.0, total_timeout=900.0)))
     obs.append(Obligation("bool-codec", h_bool, "bool round trip / empty input refused", {}, [S.writeBool, S.readBool]))
     ml = 2 if tier == "quick" else 3
     obs.append(Obligation("bytes-codec", h_bytes(ml), "bytes round trip; every strict prefix refused",
